@@ -319,9 +319,6 @@ func (v *Vue) exprEnvWithErr(ctx VueContext) (map[string]any, *error) {
 	return env, callErr
 }
 
-// calledNameRe matches the name of a called function (not a method: no leading dot).
-var calledNameRe = regexp.MustCompile(`(?:^|[^\w.])([A-Za-z_]\w*)\s*\(`)
-
 // funcFailure explains why an expression that failed to evaluate must fail the render:
 // a registered function reported an error, or the expression calls a function that does
 // not exist. It returns nil for any other evaluation problem.
@@ -329,8 +326,8 @@ func funcFailure(expression string, env map[string]any, callErr error) error {
 	if callErr != nil {
 		return fmt.Errorf("in expression '%s': %w", expression, callErr)
 	}
-	for _, m := range calledNameRe.FindAllStringSubmatch(expression, -1) {
-		name := m[1]
+	// (in the order of the text, nested calls included)
+	for _, name := range calledNamesInOrder(expression) {
 		if _, known := env[name]; known {
 			continue
 		}
